@@ -5,10 +5,14 @@
 -/
 import RoModel.DriverCore
 import RoModel.Drivers.Op
+import RoModel.Drivers.Share
 namespace Ro.Driver
 
 def handlers : List (String × (Case → String)) := [
-  ("op", Drivers.Op.run)
+  ("op", Drivers.Op.run),
+  ("share", Drivers.Share.run),
+  ("conn", Drivers.Share.runConn),
+  ("sharec", Drivers.Share.runConc)
 ]
 
 def runCase (c : Case) : String :=
